@@ -1,34 +1,305 @@
 package main
 
+// C18 facts. Everything is pinned by MEANING, not spelling:
+//   - event lists are built with x.WalkInlined, so extracting / inlining an unexported helper does not change them;
+//     a call to an unexported same-package function that has a body produces no event of its own (its body does);
+//   - a call is named by its callee only: "pkg.Func" for a call into an imported package, ".Method" for any other
+//     selector call (whatever the receiver expression is called), the bare name for builtins, "local()" for a call
+//     of a local function value, "handler"/"p<i>()" for a call of the i-th parameter;
+//   - `x.Close()` where x is the loop variable of a `range recv.<field>` is named by the field's declared TYPE:
+//     "close-listener" (…net.Listener…) or "close-conn" (…net.Conn…), so fields, helpers and locals may be renamed;
+//   - a channel receive is named by the role of its operand: "<-p0.Done" (method of the i-th parameter),
+//     "<-notified" (the channel handed to signal.Notify), "<-pkgvar" (package-level channel), "<-local";
+//   - unexported package-level names are found by role: the registry = the package-level map that is stored into
+//     right before a `.Serve(` call; the registry lock = the package-level sync.Mutex; the gRPC server type = the
+//     struct with a *grpc.Server field; the shutting-down flag = the operand of the exit handler's
+//     atomic.StoreInt32; the refresher = the condition-less for loop reachable from the function that has the
+//     case "tcp-dynamic" which sleeps and listens.
+// Exported names (Shutdown, Close, CloseProxy, ListenAndServe*, tcp.Server, InetAfTCPProxyServer, exit.Listen) and
+// the config-facing literal "tcp-dynamic" are the anchors.
+
 import (
 	"go/ast"
 	"go/token"
+	"sort"
 	"strings"
 )
 
-// events lists, in source order, the calls ("f", "x.f"), channel receives ("<-x.f()") and go statements
-// ("go") that occur inside a node. Function literals are entered (their bodies belong to the enclosing
-// function for the purposes of "what does this function do, in which order").
-func (x *X) c18events(n ast.Node) []string {
-	var out []string
-	ast.Inspect(n, func(m ast.Node) bool {
-		switch v := m.(type) {
-		case *ast.CallExpr:
-			if _, lit := v.Fun.(*ast.FuncLit); lit {
-				out = append(out, "func")
-			} else {
-				out = append(out, x.src(v.Fun))
+var c18builtins = map[string]bool{"make": true, "len": true, "delete": true, "append": true, "close": true, "cap": true,
+	"copy": true, "panic": true, "new": true, "recover": true, "print": true, "println": true, "min": true, "max": true, "clear": true}
+
+type c18ctx struct {
+	x       *X
+	dir     string
+	imports map[string]bool   // import names used in the package
+	pkgVars map[string]string // package-level var name -> declared type / initialiser source
+	fields  map[string]string // struct field name -> declared type source (all structs of the package)
+}
+
+func (x *X) c18context(dir string) *c18ctx {
+	c := &c18ctx{x: x, dir: dir, imports: map[string]bool{}, pkgVars: map[string]string{}, fields: map[string]string{}}
+	for _, f := range x.files(dir) {
+		for _, im := range f.Imports {
+			p := strings.Trim(im.Path.Value, `"`)
+			name := p[strings.LastIndex(p, "/")+1:]
+			if im.Name != nil {
+				name = im.Name.Name
 			}
+			c.imports[name] = true
+			// go-proxyproto, grpc-proxy etc. are imported under explicit names in this repo; the last path
+			// element is right for everything else the facts look at (context, time, net, signal, atomic, log, proxy)
+		}
+		for _, d := range f.Decls {
+			gd, ok := d.(*ast.GenDecl)
+			if !ok {
+				continue
+			}
+			for _, s := range gd.Specs {
+				switch v := s.(type) {
+				case *ast.ValueSpec:
+					if gd.Tok == token.VAR {
+						for i, n := range v.Names {
+							t := ""
+							if v.Type != nil {
+								t = x.src(v.Type)
+							} else if i < len(v.Values) {
+								t = x.src(v.Values[i])
+							}
+							c.pkgVars[n.Name] = t
+						}
+					}
+				case *ast.TypeSpec:
+					if st, ok := v.Type.(*ast.StructType); ok {
+						for _, fl := range st.Fields.List {
+							for _, n := range fl.Names {
+								c.fields[n.Name] = x.src(fl.Type)
+							}
+						}
+					}
+				}
+			}
+		}
+	}
+	return c
+}
+
+// params of fd by name -> index
+func c18params(fd *ast.FuncDecl) map[string]int {
+	out := map[string]int{}
+	k := 0
+	if fd.Type.Params != nil {
+		for _, f := range fd.Type.Params.List {
+			for _, n := range f.Names {
+				out[n.Name] = k
+				k++
+			}
+			if len(f.Names) == 0 {
+				k++
+			}
+		}
+	}
+	return out
+}
+
+func c18rootIdent(e ast.Expr) *ast.Ident {
+	for {
+		switch v := e.(type) {
+		case *ast.Ident:
+			return v
+		case *ast.SelectorExpr:
+			e = v.X
+		case *ast.CallExpr:
+			e = v.Fun
+		case *ast.ParenExpr:
+			e = v.X
+		case *ast.StarExpr:
+			e = v.X
 		case *ast.UnaryExpr:
-			if v.Op == token.ARROW {
-				out = append(out, "<-"+x.src(v.X))
+			e = v.X
+		case *ast.IndexExpr:
+			e = v.X
+		default:
+			return nil
+		}
+	}
+}
+
+// events of fd (helpers inlined) by meaning; see the header.
+func (c *c18ctx) events(fd *ast.FuncDecl) []string {
+	x := c.x
+	params := c18params(fd)
+	var out []string
+	rangeKind := map[string]string{} // loop variable -> "listener" | "conn"
+	notified := map[string]bool{}    // channel variables handed to signal.Notify
+	x.WalkInlined(c.dir, fd, func(n ast.Node) bool {
+		switch v := n.(type) {
+		case *ast.RangeStmt:
+			if se, ok := v.X.(*ast.SelectorExpr); ok {
+				t := c.fields[se.Sel.Name]
+				kind := ""
+				switch {
+				case strings.Contains(t, "net.Listener"):
+					kind = "listener"
+				case strings.Contains(t, "net.Conn"):
+					kind = "conn"
+				}
+				if kind != "" {
+					for _, e := range []ast.Expr{v.Key, v.Value} {
+						if id, ok := e.(*ast.Ident); ok && id.Name != "_" {
+							rangeKind[id.Name] = kind
+						}
+					}
+				}
+			}
+		case *ast.AssignStmt:
+			if len(v.Lhs) == 1 {
+				if ix, ok := v.Lhs[0].(*ast.IndexExpr); ok {
+					if id, ok := ix.X.(*ast.Ident); ok && c.isMapVar(id.Name) {
+						out = append(out, "store-registry")
+					}
+				}
 			}
 		case *ast.GoStmt:
 			out = append(out, "go")
+		case *ast.UnaryExpr:
+			if v.Op == token.ARROW {
+				out = append(out, c.recvName(v.X, params, notified))
+			}
+		case *ast.CallExpr:
+			switch f := v.Fun.(type) {
+			case *ast.FuncLit:
+				out = append(out, "func")
+			case *ast.Ident:
+				switch {
+				case c18builtins[f.Name]:
+					out = append(out, f.Name)
+				case !ast.IsExported(f.Name) && x.anyFuncDecl(c.dir, f.Name) != nil:
+					// inlined by WalkInlined
+				default:
+					if i, ok := params[f.Name]; ok && f.Obj != nil {
+						if i == 0 {
+							out = append(out, "handler")
+						} else {
+							out = append(out, "p"+string(rune('0'+i))+"()")
+						}
+					} else if x.anyFuncDecl(c.dir, f.Name) != nil {
+						out = append(out, f.Name) // exported same-package function
+					} else {
+						out = append(out, "local()")
+					}
+				}
+			case *ast.SelectorExpr:
+				if id, ok := f.X.(*ast.Ident); ok && c.imports[id.Name] && id.Obj == nil {
+					name := id.Name + "." + f.Sel.Name
+					out = append(out, name)
+					if name == "signal.Notify" && len(v.Args) > 0 {
+						if ch, ok := v.Args[0].(*ast.Ident); ok {
+							notified[ch.Name] = true
+						}
+					}
+					break
+				}
+				if !ast.IsExported(f.Sel.Name) && x.anyFuncDecl(c.dir, f.Sel.Name) != nil {
+					break // inlined method
+				}
+				if id, ok := f.X.(*ast.Ident); ok && f.Sel.Name == "Close" && rangeKind[id.Name] != "" {
+					out = append(out, "close-"+rangeKind[id.Name])
+					break
+				}
+				out = append(out, "."+f.Sel.Name)
+			default:
+				out = append(out, "call")
+			}
 		}
 		return true
 	})
 	return out
+}
+
+func (c *c18ctx) isMapVar(name string) bool {
+	t, ok := c.pkgVars[name]
+	return ok && strings.Contains(t, "map[")
+}
+
+func (c *c18ctx) recvName(e ast.Expr, params map[string]int, notified map[string]bool) string {
+	root := c18rootIdent(e)
+	suffix := ""
+	if call, ok := e.(*ast.CallExpr); ok {
+		if se, ok := call.Fun.(*ast.SelectorExpr); ok {
+			suffix = "." + se.Sel.Name
+		}
+	}
+	if root == nil {
+		return "<-expr" + suffix
+	}
+	if i, ok := params[root.Name]; ok {
+		return "<-p" + string(rune('0'+i)) + suffix
+	}
+	if notified[root.Name] {
+		return "<-notified" + suffix
+	}
+	if _, ok := c.pkgVars[root.Name]; ok {
+		return "<-pkgvar" + suffix
+	}
+	return "<-local" + suffix
+}
+
+// the package-level map variable that some function stores into (`X[k] = v`) and then calls `.Serve(`
+func (c *c18ctx) registryVar() string {
+	for _, f := range c.x.files(c.dir) {
+		for _, d := range f.Decls {
+			fd, ok := d.(*ast.FuncDecl)
+			if !ok || fd.Body == nil {
+				continue
+			}
+			name, serves := "", false
+			ast.Inspect(fd.Body, func(n ast.Node) bool {
+				switch v := n.(type) {
+				case *ast.AssignStmt:
+					if len(v.Lhs) == 1 {
+						if ix, ok := v.Lhs[0].(*ast.IndexExpr); ok {
+							if id, ok := ix.X.(*ast.Ident); ok && c.isMapVar(id.Name) {
+								name = id.Name
+							}
+						}
+					}
+				case *ast.CallExpr:
+					if se, ok := v.Fun.(*ast.SelectorExpr); ok && se.Sel.Name == "Serve" && name != "" {
+						serves = true
+					}
+				}
+				return true
+			})
+			if name != "" && serves {
+				return name
+			}
+		}
+	}
+	return ""
+}
+
+// the package-level sync.Mutex
+func (c *c18ctx) lockVar() string {
+	var names []string
+	for n, t := range c.pkgVars {
+		if t == "sync.Mutex" || t == "sync.RWMutex" {
+			names = append(names, n)
+		}
+	}
+	sort.Strings(names)
+	if len(names) == 1 {
+		return names[0]
+	}
+	return ""
+}
+
+// fieldPath drops the root identifier of a selector chain: cfg.Proxy.ShutdownWait -> ".Proxy.ShutdownWait"
+func (x *X) c18fieldPath(e ast.Expr) string {
+	s := x.src(e)
+	if root := c18rootIdent(e); root != nil && strings.HasPrefix(s, root.Name) {
+		return s[len(root.Name):]
+	}
+	return s
 }
 
 func c18usesIdent(n ast.Node, name string) bool {
@@ -43,164 +314,224 @@ func c18usesIdent(n ast.Node, name string) bool {
 }
 
 func c18paramName(fd *ast.FuncDecl, i int) string {
-	k := 0
-	for _, f := range fd.Type.Params.List {
-		for _, n := range f.Names {
-			if k == i {
-				return n.Name
-			}
-			k++
-		}
-		if len(f.Names) == 0 {
-			k++
+	for n, k := range c18params(fd) {
+		if k == i {
+			return n
 		}
 	}
 	return ""
 }
 
+func c18between(ev []string, open, close string) (under []string, opens int) {
+	held := false
+	for _, e := range ev {
+		switch {
+		case e == open:
+			held = true
+			opens++
+		case e == close:
+			held = false
+		case held:
+			under = append(under, e)
+		}
+	}
+	return
+}
+
 func init() {
 	register("C18", func(x *X) error {
-		// ---- proxy.Shutdown: registry swap, one WithTimeout(…, timeout) per server, WaitGroup ----
+		x.UseNormalizedAST()
+		px := x.c18context("proxy")
+		reg, lock := px.registryVar(), px.lockVar()
+		if reg == "" {
+			x.fail("proxy: no package-level map that is stored into before a .Serve( call (the server registry)")
+		}
+		if lock == "" {
+			x.fail("proxy: expected exactly one package-level sync.Mutex (the registry lock)")
+		}
+
+		// ---- proxy.Shutdown ----
 		if fd := x.funcDecl("proxy", "", "Shutdown"); fd != nil {
-			x.defStrList("shutdownEvents", x.c18events(fd.Body))
+			ev := px.events(fd)
+			x.defStrList("shutdownEvents", ev)
 			param := c18paramName(fd, 0)
-			x.defStr("shutdownParam", param)
-			// the statement `servers = make(map[string]Server)` (a fresh, empty registry)
-			resets := false
-			ast.Inspect(fd.Body, func(m ast.Node) bool {
-				if as, ok := m.(*ast.AssignStmt); ok && len(as.Lhs) == 1 && len(as.Rhs) == 1 && x.src(as.Lhs[0]) == "servers" {
-					if c, ok := as.Rhs[0].(*ast.CallExpr); ok && x.src(c.Fun) == "make" && len(c.Args) == 1 {
-						resets = true
+			resets, perServer, timeoutIsParam, passesCtx := false, false, false, false
+			x.WalkInlined("proxy", fd, func(m ast.Node) bool {
+				switch v := m.(type) {
+				case *ast.AssignStmt: // <registry> = make(map…): a fresh, empty registry
+					if len(v.Lhs) == 1 && len(v.Rhs) == 1 {
+						if id, ok := v.Lhs[0].(*ast.Ident); ok && id.Name == reg {
+							if c, ok := v.Rhs[0].(*ast.CallExpr); ok && x.src(c.Fun) == "make" && len(c.Args) == 1 {
+								resets = true
+							}
+						}
 					}
+				case *ast.RangeStmt:
+					// in the loop: a go statement whose function derives its context with
+					// context.WithTimeout(_, <parameter 0>) and hands the result to a .Shutdown( call
+					ast.Inspect(v.Body, func(k ast.Node) bool {
+						gs, ok := k.(*ast.GoStmt)
+						if !ok {
+							return true
+						}
+						ctxVar := ""
+						ast.Inspect(gs.Call.Fun, func(j ast.Node) bool {
+							if as, ok := j.(*ast.AssignStmt); ok && len(as.Rhs) == 1 && len(as.Lhs) >= 1 {
+								if c, ok := as.Rhs[0].(*ast.CallExpr); ok && x.src(c.Fun) == "context.WithTimeout" && len(c.Args) == 2 {
+									perServer = true
+									if id, ok := c.Args[1].(*ast.Ident); ok && id.Name == param && param != "" {
+										timeoutIsParam = true
+									}
+									if id, ok := as.Lhs[0].(*ast.Ident); ok {
+										ctxVar = id.Name
+									}
+								}
+							}
+							return true
+						})
+						ast.Inspect(gs.Call.Fun, func(j ast.Node) bool {
+							if c, ok := j.(*ast.CallExpr); ok {
+								if se, ok := c.Fun.(*ast.SelectorExpr); ok && se.Sel.Name == "Shutdown" && len(c.Args) == 1 {
+									if id, ok := c.Args[0].(*ast.Ident); ok && id.Name == ctxVar && ctxVar != "" {
+										passesCtx = true
+									}
+								}
+							}
+							return true
+						})
+						return true
+					})
 				}
 				return true
 			})
 			x.defBool("shutdownInstallsEmptyRegistry", resets)
-			// inside the `for … range` loop: a go statement whose function literal derives its context with
-			// context.WithTimeout(<anything>, <the parameter>) and hands that context to srv.Shutdown
-			perServer, passesCtx, timeoutArg := false, false, ""
-			ast.Inspect(fd.Body, func(m ast.Node) bool {
-				rs, ok := m.(*ast.RangeStmt)
-				if !ok {
-					return true
+			x.defBool("shutdownOneTimeoutCtxPerServer", perServer)
+			x.defBool("shutdownTimeoutIsParam", timeoutIsParam)
+			x.defBool("shutdownPassesCtxToServer", passesCtx)
+		}
+
+		// ---- registration: the function(s) that store into the registry, and every ListenAndServe* reaches one ----
+		var las []string
+		var serveEv []string
+		var underLock []string
+		var holders []string
+		for _, f := range x.files("proxy") {
+			for _, d := range f.Decls {
+				fd, ok := d.(*ast.FuncDecl)
+				if !ok || fd.Body == nil {
+					continue
 				}
-				ast.Inspect(rs.Body, func(k ast.Node) bool {
-					gs, ok := k.(*ast.GoStmt)
-					if !ok {
-						return true
-					}
-					wts := x.calls(gs.Call.Fun, "context.WithTimeout")
-					if len(wts) == 1 && len(wts[0].Args) == 2 {
-						perServer = true
-						timeoutArg = x.src(wts[0].Args[1])
-					}
-					for _, c := range x.calls(gs.Call.Fun, "srv.Shutdown") {
-						if len(c.Args) == 1 && x.src(c.Args[0]) == "ctx" {
-							passesCtx = true
+				// does this function itself (not a helper) take the registry lock / store into the registry?
+				takes, stores := false, false
+				ast.Inspect(fd.Body, func(m ast.Node) bool {
+					switch v := m.(type) {
+					case *ast.CallExpr:
+						if se, ok := v.Fun.(*ast.SelectorExpr); ok && se.Sel.Name == "Lock" {
+							if id, ok := se.X.(*ast.Ident); ok && id.Name == lock {
+								takes = true
+							}
+						}
+					case *ast.AssignStmt:
+						if len(v.Lhs) == 1 {
+							if ix, ok := v.Lhs[0].(*ast.IndexExpr); ok {
+								if id, ok := ix.X.(*ast.Ident); ok && id.Name == reg {
+									stores = true
+								}
+							}
 						}
 					}
 					return true
 				})
-				return true
-			})
-			x.defBool("shutdownOneTimeoutCtxPerServer", perServer)
-			x.defStr("shutdownTimeoutArg", timeoutArg)
-			x.defBool("shutdownPassesCtxToServer", passesCtx)
-		}
-		// ---- serve(): registers under the listener's address before serving ----
-		if fd := x.funcDecl("proxy", "", "serve"); fd != nil {
-			registers := false
-			ast.Inspect(fd.Body, func(m ast.Node) bool {
-				if as, ok := m.(*ast.AssignStmt); ok && len(as.Lhs) == 1 {
-					if ix, ok := as.Lhs[0].(*ast.IndexExpr); ok && x.src(ix.X) == "servers" {
-						registers = true
+				if takes {
+					ev := px.events(fd)
+					u, _ := c18between(ev, ".Lock", ".Unlock")
+					underLock = append(underLock, u...)
+					holders = append(holders, fd.Name.Name)
+				}
+				if stores && fd.Recv == nil {
+					serveEv = append(serveEv, px.events(fd)...)
+				}
+				if fd.Recv == nil && strings.HasPrefix(fd.Name.Name, "ListenAndServe") {
+					reaches := false
+					for _, e := range px.events(fd) {
+						if e == "store-registry" {
+							reaches = true
+						}
 					}
-				}
-				return true
-			})
-			x.defBool("serveRegisters", registers)
-			x.defStrList("serveEvents", x.c18events(fd.Body))
-		}
-		// what is called while the registry lock `mu` is held, per function of proxy/serve.go that takes it:
-		// the events between every mu.Lock and the next mu.Unlock, in source order
-		for _, fn := range []string{"CloseProxy", "Close", "Shutdown", "serve"} {
-			if fd := x.funcDecl("proxy", "", fn); fd != nil {
-				var under []string
-				held, locks := false, 0
-				for _, e := range x.c18events(fd.Body) {
-					switch {
-					case e == "mu.Lock":
-						held = true
-						locks++
-					case e == "mu.Unlock":
-						held = false
-					case held:
-						under = append(under, e)
-					}
-				}
-				if locks == 0 {
-					x.fail("proxy.%s no longer takes mu", fn)
-				}
-				x.defStrList("underLock"+strings.ToUpper(fn[:1])+fn[1:], under)
-			}
-		}
-		// every ListenAndServe* goes through serve()
-		var las []string
-		for _, f := range x.files("proxy") {
-			for _, d := range f.Decls {
-				if fd, ok := d.(*ast.FuncDecl); ok && fd.Recv == nil && len(fd.Name.Name) > 14 && fd.Name.Name[:14] == "ListenAndServe" {
-					if len(x.calls(fd.Body, "serve")) == 0 {
+					if !reaches {
 						las = append(las, fd.Name.Name)
 					}
 				}
 			}
 		}
-		x.defSortedStrList("listenAndServeNotThroughServe", las)
+		x.defStrList("serveEvents", serveEv)
+		x.defSortedStrList("listenAndServeNotRegistering", las)
+		// everything that happens between Lock and Unlock of the registry lock, in any function that takes it
+		// (helpers called under the lock inlined); the exported ones must be among the holders
+		x.defStrList("underRegistryLock", underLock)
+		x.defSortedStrList("registryLockHolders", holders)
 
-		// ---- tcp.Server.Shutdown: closeListeners, <-ctx.Done(), closeConns ----
+		// ---- tcp.Server.Shutdown ----
+		tx := x.c18context("proxy/tcp")
 		if fd := x.funcDecl("proxy/tcp", "Server", "Shutdown"); fd != nil {
-			x.defStrList("tcpShutdownEvents", x.c18events(fd.Body))
+			x.defStrList("tcpShutdownEvents", tx.events(fd))
 		}
-		if fd := x.funcDecl("proxy/tcp", "Server", "closeListeners"); fd != nil {
-			x.defStrList("tcpCloseListenersEvents", x.c18events(fd.Body))
-		}
-		if fd := x.funcDecl("proxy/tcp", "Server", "closeConns"); fd != nil {
-			x.defStrList("tcpCloseConnsEvents", x.c18events(fd.Body))
-		}
-		// ---- gRPCServer.Shutdown: does it look at its context? ----
-		if fd := x.funcDecl("proxy", "gRPCServer", "Shutdown"); fd != nil {
-			p := c18paramName(fd, 0)
-			x.defStr("grpcShutdownParam", p)
-			x.defBool("grpcShutdownUsesCtx", p != "" && p != "_" && c18usesIdent(fd.Body, p))
-			x.defStrList("grpcShutdownEvents", x.c18events(fd.Body))
-		}
-		// ---- InetAfTCPProxyServer.Shutdown: outer listener first, children get the same ctx ----
-		if fd := x.funcDecl("proxy", "InetAfTCPProxyServer", "Shutdown"); fd != nil {
-			x.defStrList("inetafShutdownEvents", x.c18events(fd.Body))
-			ok := false
-			for _, c := range x.calls(fd.Body, "sl.s.Shutdown") {
-				if len(c.Args) == 1 && x.src(c.Args[0]) == c18paramName(fd, 0) {
-					ok = true
+		// ---- the gRPC server: the struct with a *grpc.Server field; its Shutdown ----
+		grpcType := ""
+		for _, f := range x.files("proxy") {
+			for _, d := range f.Decls {
+				if gd, ok := d.(*ast.GenDecl); ok && gd.Tok == token.TYPE {
+					for _, s := range gd.Specs {
+						ts := s.(*ast.TypeSpec)
+						if st, ok := ts.Type.(*ast.StructType); ok {
+							for _, fl := range st.Fields.List {
+								if x.src(fl.Type) == "*grpc.Server" {
+									grpcType = ts.Name.Name
+								}
+							}
+						}
+					}
 				}
 			}
+		}
+		if grpcType == "" {
+			x.fail("proxy: no struct with a *grpc.Server field")
+		} else if fd := x.funcDecl("proxy", grpcType, "Shutdown"); fd != nil {
+			p := c18paramName(fd, 0)
+			x.defBool("grpcShutdownUsesCtx", p != "" && p != "_" && c18usesIdent(fd.Body, p))
+			x.defStrList("grpcShutdownEvents", px.events(fd))
+		}
+		// ---- InetAfTCPProxyServer.Shutdown ----
+		if fd := x.funcDecl("proxy", "InetAfTCPProxyServer", "Shutdown"); fd != nil {
+			x.defStrList("inetafShutdownEvents", px.events(fd))
+			ok := false
+			p := c18paramName(fd, 0)
+			x.WalkInlined("proxy", fd, func(m ast.Node) bool {
+				if c, isCall := m.(*ast.CallExpr); isCall {
+					if se, isSel := c.Fun.(*ast.SelectorExpr); isSel && se.Sel.Name == "Shutdown" && len(c.Args) == 1 {
+						if id, isId := c.Args[0].(*ast.Ident); isId && id.Name == p && p != "" {
+							ok = true
+						}
+					}
+				}
+				return true
+			})
 			x.defBool("inetafChildrenGetCtx", ok)
 		}
-		// ---- exit.Listen: the signal registration and the call of the handler. Only the events that matter:
-		// anything from os/signal, the channel receives, and the call of the handler parameter ----
+		// ---- exit.Listen: os/signal calls, channel receives, the call of the handler ----
+		ex := x.c18context("exit")
 		if fd := x.funcDecl("exit", "", "Listen"); fd != nil {
-			hp := c18paramName(fd, 0)
 			var ev []string
-			for _, e := range x.c18events(fd.Body) {
-				if strings.HasPrefix(e, "signal.") || strings.HasPrefix(e, "<-") || e == hp {
-					if e == hp {
-						e = "handler"
-					}
+			for _, e := range ex.events(fd) {
+				if strings.HasPrefix(e, "signal.") || strings.HasPrefix(e, "<-") || e == "handler" {
 					ev = append(ev, e)
 				}
 			}
 			x.defStrList("exitListenEvents", ev)
 		}
-		// ---- main.go: the exit handler handed to exit.Listen, and the tcp-dynamic refresher ----
+		// ---- package main: the exit handler handed to exit.Listen, and the tcp-dynamic refresher ----
+		mx := x.c18context(".")
+		flag := ""
 		if fd := x.funcDecl(".", "", "main"); fd != nil {
 			ls := x.calls(fd.Body, "exit.Listen")
 			if len(ls) != 1 || len(ls[0].Args) != 1 {
@@ -208,82 +539,88 @@ func init() {
 			} else if fl, ok := ls[0].Args[0].(*ast.FuncLit); !ok {
 				x.fail("main: exit.Listen argument is not a function literal")
 			} else {
-				x.defStrList("exitHandlerEvents", x.c18events(fl.Body))
+				synth := &ast.FuncDecl{Name: ast.NewIdent("exitHandler"), Type: fl.Type, Body: fl.Body}
+				x.defStrList("exitHandlerEvents", mx.events(synth))
 				arg := func(fn string) string {
 					cs := x.calls(fl.Body, fn)
 					if len(cs) == 1 && len(cs[0].Args) == 1 {
-						return x.src(cs[0].Args[0])
+						return x.c18fieldPath(cs[0].Args[0])
 					}
 					return ""
 				}
 				x.defStr("exitHandlerSleepArg", arg("time.Sleep"))
 				x.defStr("exitHandlerShutdownArg", arg("proxy.Shutdown"))
+				// the shutting-down flag: what the handler's atomic.StoreInt32 writes
+				if cs := x.calls(fl.Body, "atomic.StoreInt32"); len(cs) >= 1 && len(cs[0].Args) == 2 {
+					if id := c18rootIdent(cs[0].Args[0]); id != nil {
+						flag = id.Name
+					}
+				}
 			}
 		}
-		if fd := x.funcDecl(".", "", "startServers"); fd != nil {
-			found := false
-			ast.Inspect(fd.Body, func(m ast.Node) bool {
-				cc, ok := m.(*ast.CaseClause)
-				if !ok || len(cc.List) != 1 {
-					return true
+		if flag == "" {
+			x.fail("main: the exit handler does not set a flag with atomic.StoreInt32")
+		}
+		// the function with the case "tcp-dynamic"
+		var starter *ast.FuncDecl
+		for _, f := range x.files(".") {
+			for _, d := range f.Decls {
+				if fd, ok := d.(*ast.FuncDecl); ok && fd.Body != nil {
+					ast.Inspect(fd.Body, func(m ast.Node) bool {
+						if bl, ok := m.(*ast.BasicLit); ok && bl.Kind == token.STRING && bl.Value == `"tcp-dynamic"` {
+							starter = fd
+						}
+						return starter == nil
+					})
 				}
-				if s, ok := x.strLit(cc.List[0]); ok && s == "tcp-dynamic" {
-					found = true
-					x.defBool("refresherLooksAtShuttingDown", func() bool {
-						for _, st := range cc.Body {
-							if c18usesIdent(st, "shuttingDown") {
-								return true
-							}
+			}
+		}
+		if starter == nil {
+			x.fail("main: no function mentions \"tcp-dynamic\"")
+		} else {
+			// the refresh loop: the first condition-less for loop reachable from it (helpers inlined) that sleeps
+			// and, directly or through helpers, listens
+			var loop *ast.ForStmt
+			classify := func(body *ast.BlockStmt) []string {
+				var ev []string
+				synth := &ast.FuncDecl{Name: ast.NewIdent("refreshLoop"), Type: &ast.FuncType{Params: &ast.FieldList{}}, Body: body}
+				x.WalkInlined(".", synth, func(k ast.Node) bool {
+					switch v := k.(type) {
+					case *ast.CallExpr:
+						switch x.src(v.Fun) {
+						case "time.Sleep":
+							ev = append(ev, "sleep")
+						case "net.Listen", "proxy.ListenAndServeTCP":
+							ev = append(ev, "listen")
 						}
-						return false
-					}())
-					starts := false
-					for _, st := range cc.Body {
-						if len(x.calls(st, "proxy.ListenAndServeTCP")) > 0 {
-							starts = true
+					case *ast.Ident:
+						if v.Name == flag && flag != "" {
+							ev = append(ev, "test")
 						}
 					}
-					x.defBool("refresherStartsListeners", starts)
-					// the refresh loop: the outermost `for { … }` of the clause that sleeps. Its body, flattened in
-					// source order to the three things that matter: "sleep" (time.Sleep), "test" (a reference to
-					// shuttingDown), "listen" (net.Listen or proxy.ListenAndServeTCP).
-					var loop *ast.ForStmt
-					for _, st := range cc.Body {
-						ast.Inspect(st, func(k ast.Node) bool {
-							if fs, ok := k.(*ast.ForStmt); ok && loop == nil && fs.Cond == nil && len(x.calls(fs.Body, "time.Sleep")) > 0 {
-								loop = fs
-							}
-							return loop == nil
-						})
+					return true
+				})
+				return ev
+			}
+			var loopEv []string
+			x.WalkInlined(".", starter, func(m ast.Node) bool {
+				if fs, ok := m.(*ast.ForStmt); ok && loop == nil && fs.Cond == nil {
+					ev := classify(fs.Body)
+					hasS, hasL := false, false
+					for _, e := range ev {
+						hasS = hasS || e == "sleep"
+						hasL = hasL || e == "listen"
 					}
-					var ev []string
-					if loop == nil {
-						x.fail("startServers: tcp-dynamic refresh loop (for { … time.Sleep … }) not found")
-					} else {
-						ast.Inspect(loop.Body, func(k ast.Node) bool {
-							switch v := k.(type) {
-							case *ast.CallExpr:
-								switch x.src(v.Fun) {
-								case "time.Sleep":
-									ev = append(ev, "sleep")
-								case "net.Listen", "proxy.ListenAndServeTCP":
-									ev = append(ev, "listen")
-								}
-							case *ast.Ident:
-								if v.Name == "shuttingDown" {
-									ev = append(ev, "test")
-								}
-							}
-							return true
-						})
+					if hasS && hasL {
+						loop, loopEv = fs, ev
 					}
-					x.defStrList("refresherLoopEvents", ev)
 				}
 				return true
 			})
-			if !found {
-				x.fail("startServers: case \"tcp-dynamic\" not found")
+			if loop == nil {
+				x.fail("main: tcp-dynamic refresh loop (for { … sleep … listen … }) not found")
 			}
+			x.defStrList("refresherLoopEvents", loopEv)
 		}
 		return nil
 	})
